@@ -43,7 +43,7 @@ type unit struct {
 
 func (u unit) firstCase() uint64 {
 	if u.only {
-		return NumCases(u.kind, len(u.base)) - 1
+		return NumCases(u.kind, u.base) - 1
 	}
 	return 0
 }
@@ -441,7 +441,7 @@ func runDecoders(c *vf.Ctx) {
 	codec.Seed = c.Seed
 	c.Set("rule", "decoder half: for every inventory codec (same inventory as C11) and every text entry point, for every base encoding of the (capped) C11 domain: "+
 		"every proper prefix; every byte position x {0x00,0x01,0x7F,0x80,0xFF,b^1,b+1}; every 8-byte window x {0,1,2^31,2^32,2^40,2^62,2^63,2^64-1} little-endian; every 8-byte window set to 131072 and followed by 131072 bytes of 0xFF instead of the rest (a count that equals the bytes left); "+
-		"texts: every position x 12-symbol alphabet, every deletion, every duplication, length -1,-2,+1,+2,x2. A case is non-trivial when it is a distinct (entry, input) pair")
+		"texts: every position x 12-symbol alphabet, every deletion, every duplication, length -1,-2,+1,+2,x2, every number token (digit run, incl. quoted integer keys of JSON objects) x 13 boundary numbers (-1, 63..65, 255, 256, 2^16, 2^32, 2^63, 2^64-1, 2^64, 41 digits, 1e9). A case is non-trivial when it is a distinct (entry, input) pair")
 	c.Assume("allocation is measured with runtime/metrics /gc/heap/allocs:bytes around a single-goroutine decode in the worker (large objects are accounted immediately; small-class lag is far below the 8 MiB constant of the allowance)")
 	c.Assume("workers run with RLIMIT_AS = 4 GiB set by the worker itself before decoding; a worker that dies is a violation attributed to the case index it stored in shared memory before decoding")
 	c.Assume("termination: a decode that makes no progress for 120 s is declared non-terminating (never observed); no other use of wall-clock time")
@@ -451,7 +451,7 @@ func runDecoders(c *vf.Ctx) {
 	units, perPkg := corpus(c)
 	var totalCases uint64
 	for _, u := range units {
-		totalCases += NumCases(u.kind, len(u.base)) - u.firstCase()
+		totalCases += NumCases(u.kind, u.base) - u.firstCase()
 	}
 	c.Set("corpus_per_package", perPkg)
 	c.Set("base_inputs", len(units))
@@ -460,7 +460,7 @@ func runDecoders(c *vf.Ctx) {
 	c.Set("worker_address_space_limit_bytes", addressSpace)
 
 	sort.SliceStable(units, func(i, j int) bool {
-		return NumCases(units[i].kind, len(units[i].base))-units[i].firstCase() > NumCases(units[j].kind, len(units[j].base))-units[j].firstCase()
+		return NumCases(units[i].kind, units[i].base)-units[i].firstCase() > NumCases(units[j].kind, units[j].base)-units[j].firstCase()
 	})
 	st := &decStats{}
 	nslots := vf.Workers()
@@ -482,7 +482,7 @@ func runDecoders(c *vf.Ctx) {
 					return
 				}
 				u := units[i]
-				n := NumCases(u.kind, len(u.base))
+				n := NumCases(u.kind, u.base)
 				runUnit(c, &slot, u, u.firstCase(), n, st)
 				for _, fam := range families(u.kind) {
 					c.Distinct(u.entry, hex.EncodeToString(u.base), fam)
@@ -513,7 +513,7 @@ func runDecoders(c *vf.Ctx) {
 	for _, name := range []string{"types.V2Transaction", "rhp/v2.RPCReadResponse", "types.ChainIndex.UnmarshalText"} {
 		for _, u := range units {
 			if u.entry == name {
-				c.Sample(describe(u, NumCases(u.kind, len(u.base))/2))
+				c.Sample(describe(u, NumCases(u.kind, u.base)/2))
 				break
 			}
 		}
@@ -523,7 +523,7 @@ func runDecoders(c *vf.Ctx) {
 
 func families(kind int) []string {
 	if kind == kindText {
-		return []string{"text-substitute", "text-delete", "text-duplicate", "text-length"}
+		return []string{"text-substitute", "text-delete", "text-duplicate", "text-length", "text-number"}
 	}
 	return []string{"prefix", "byte-sub", "u64-window", "padded-count"}
 }
@@ -535,7 +535,7 @@ func distinctInputs(c *vf.Ctx, units []unit) {
 	seed := maphash.MakeSeed()
 	vf.ParallelFor(len(units), func(i int) {
 		u := units[i]
-		n := NumCases(u.kind, len(u.base))
+		n := NumCases(u.kind, u.base)
 		seen := make(map[uint64]struct{}, n-u.firstCase())
 		var scratch []byte
 		for idx := u.firstCase(); idx < n; idx++ {
